@@ -6,8 +6,10 @@ package main
 // section inside a healthy file. Each is a direct monitor of the property on the implementation.
 
 import (
+	"bytes"
 	"context"
 	"fmt"
+	"math"
 	"runtime"
 	"strings"
 	"sync"
@@ -82,11 +84,14 @@ func directedQuerySide(c *ctx, r Rng, which string) {
 		dirCloseWithBackedUpPipeline(c, r)
 	case "C22":
 		dirCancelledWaiterReads(c, r)
+		dirStalledSectionless(c, r)
 	case "C23":
 		dirCorruptFilterSection(c, r)
+		dirReversedSectionsReadFault(c, r)
 	case "C24":
 		dirBoundaryPrefilters(c, r)
 		dirMixedSections(c, r)
+		dirRegexGuard(c, r)
 	}
 }
 
@@ -446,7 +451,13 @@ func dirBoundaryPrefilters(c *ctx, r Rng) {
 		for f := 0; f < 3+r.IntN(3); f++ {
 			lo := int64(r.IntN(50)) * 10
 			hi := lo + int64(r.IntN(4))*10
-			bounds = append(bounds, lo, hi)
+			switch r.Pick(6) {
+			case 0:
+				lo = math.MinInt64 // saturated below only: the upper bound stays exact
+			case 1:
+				hi = math.MaxInt64 // saturated above only
+			}
+			bounds = append(bounds, lo, hi, 1000, 100)
 			var rows []map[string]any
 			for _, v := range []int64{lo, hi} {
 				h.nextID++
@@ -469,6 +480,9 @@ func dirBoundaryPrefilters(c *ctx, r Rng) {
 		}
 		for qi := 0; qi < 10; qi++ {
 			v := pick(r, bounds)
+			if v == math.MinInt64 || v == math.MaxInt64 {
+				v = 1000
+			}
 			cond := pick(r, []bs.NumericCondition{bs.NumericLessThan(v), bs.NumericGreaterThan(v), bs.NumericLessThanEqual(v - 1), bs.NumericGreaterThanEqual(v + 1), bs.NumericBetween(v+1, v+5), bs.NumericEquals(v), bs.NumericNotEquals(v)})
 			q := bs.NewQuery().MatchPrefilter(bs.MinMax("k1", cond)).Build()
 			if r.Chance(0.5) {
@@ -552,6 +566,183 @@ func dirMixedSections(c *ctx, r Rng) {
 			c.r.Case(mixed, fmt.Sprint("mixed-sections", i, tok, m.part, lone))
 			c.r.Hit("directed.mixed-sections." + b2s(mixed))
 			checkStatsAndReads(c, h, layout, q, sc, out, blockOf, "C24", replay)
+		}
+	}
+}
+
+// dirRegexGuard: regex trees that AND / OR conditions on several fields over files that carry only some of
+// those fields. An AND needs every field: a file (block) whose field filter rules one out must not be opened
+// (read); an OR needs any.
+func dirRegexGuard(c *ctx, r Rng) {
+	for i := 0; i < 3*c.scale; i++ {
+		cfg := bs.DefaultBloomSearchEngineConfig()
+		cfg.MaxBufferedTime = time.Hour
+		cfg.RowDataCompression = bs.CompressionNone
+		cfg.PartitionFunc = partitionFunc("p")
+		h := &History{Env: NewEnv(cfg), TM: tokModes[0], PartMode: "p", Rows: map[int]*StoredRow{}}
+		h.Env.IngestWait([]map[string]any{{"_id": 1, "p": "a", "level": "error"}, {"_id": 2, "p": "b", "level": "warn"}})
+		h.Env.IngestWait([]map[string]any{{"_id": 3, "p": "a", "level": "error", "message": "disk full"}, {"_id": 4, "p": "b", "message": "only a message"}})
+		h.Env.IngestWait([]map[string]any{{"_id": 5, "p": "a", "other": "x"}})
+		h.Env.Stop()
+		layout, err := h.Layout()
+		if err != nil {
+			continue
+		}
+		blockOf := map[int]string{}
+		for _, f := range layout {
+			for _, b := range f.Blocks {
+				for _, id := range b.RowIDs {
+					blockOf[id] = fmt.Sprint(f.Ptr, "@", b.Meta.RowDataOffset)
+				}
+			}
+		}
+		lv, ms, ot := bs.FieldRegex("level", "err"), bs.FieldRegex("message", "full"), bs.FieldRegex("other", ".")
+		for _, rx := range []bs.RegexExpression{bs.RegexAnd(lv, ms), bs.RegexOr(lv, ms), bs.RegexAnd(lv, bs.RegexOr(ms, ot)), bs.RegexAnd(ot, ms), bs.RegexOr(bs.RegexAnd(lv, ms), ot)} {
+			q := bs.NewQuery().MatchRegex(rx).Build()
+			sc := qScenario{CancelAt: -1, CloseAt: -1, StallAt: -1, IterErr: -1, Engine: "never"}
+			out := runQueryScenario(h, q, sc)
+			replay := map[string]any{"regex": rx, "rows": len(out.rows), "err": errStr(out.err1)}
+			c.r.Case(true, fmt.Sprint("regex-guard", i, regexStr(&rx)))
+			c.r.Hit("directed.regex-guard")
+			checkStatsAndReads(c, h, layout, q, sc, out, blockOf, "C24", replay)
+		}
+	}
+}
+
+// dirStalledSectionless: a file from an external writer (many blocks, none with a filter section) queried
+// with a bloom condition by a consumer that never reads; a second query must still complete.
+func dirStalledSectionless(c *ctx, r Rng) {
+	for i := 0; i < 3*c.scale; i++ {
+		cfg := bs.DefaultBloomSearchEngineConfig()
+		cfg.PartitionFunc = partitionFunc("p")
+		cfg.MaxBufferedTime = time.Hour
+		cfg.RowDataCompression = bs.CompressionNone
+		cfg.MaxQueryConcurrency = pick(r, []int{1, 2, 3})
+		h := &History{Env: NewEnv(cfg), TM: tokModes[0], PartMode: "p", Rows: map[int]*StoredRow{}}
+		parts := map[string][]*StoredRow{}
+		nb := 24 + r.IntN(16)
+		for k := 0; k < nb; k++ {
+			pid := fmt.Sprintf("p%02d", k)
+			row := map[string]any{"_id": k + 1, "p": pid, "w": "needle"}
+			b, _ := mustMarshal(row)
+			parts[pid] = []*StoredRow{{ID: k + 1, Go: row, Bytes: b, PID: pid, Vals: map[string]NumCase{}}}
+		}
+		h.nextID = 1000
+		h.writeExternal(parts, func() bool { return true }, c.r)
+		h.Env.Stop()
+		eng := freshOver(h.Env, pick(r, []string{"never", "started"}))
+		q := bs.NewQuery().Token("needle").Build()
+		actx, acancel := context.WithCancel(context.Background())
+		ares, err := eng.Query(actx, q)
+		if err != nil {
+			acancel()
+			continue
+		}
+		time.Sleep(60 * time.Millisecond) // A's pipeline fills up behind its unread cursor
+		bres, err := eng.Query(context.Background(), q)
+		var rows []map[string]any
+		ok := false
+		if err == nil {
+			rows, ok = drainWatch(bres, 5*time.Second)
+		}
+		replay := map[string]any{"blocks_without_filter_section": nb, "MaxQueryConcurrency": cfg.MaxQueryConcurrency, "second_query_rows": len(rows), "slots_in_use": eng.VerifSemaphoreInUse()}
+		c.r.Case(true, fmt.Sprint("stalled-sectionless", i, nb, cfg.MaxQueryConcurrency))
+		c.r.Hit("directed.stalled-sectionless")
+		if !ok || len(rows) != nb {
+			c.r.Add(Finding{Kind: "violation", Check: "stalled-query-starves-others", Detail: fmt.Sprintf("with one bloom-conditioned query stalled (its consumer never calls Next) over a %d-block file without filter sections, a second query returned %d of %d rows within 5s (completed=%v)", nb, len(rows), nb, ok), Replay: replay})
+		}
+		acancel()
+		ares.Close()
+		if err == nil {
+			bres.Close()
+		}
+		eng.Stop(context.Background())
+	}
+}
+
+// dirReversedSectionsReadFault: a file whose filter sections lie in the region in the reverse order of its row
+// data (legal for an external writer), so that the filter pass needs several region reads; the k-th store
+// read fails. Whatever fails, BlockStats lists all or none of the file's blocks, and every returned row's
+// block is listed.
+func dirReversedSectionsReadFault(c *ctx, r Rng) {
+	for i := 0; i < 3*c.scale; i++ {
+		env, _ := dirPop(pick(r, []int{1, 4}), 1, 8, 4)
+		files, _ := AllFiles(env.Meta)
+		victim := files[0]
+		orig := env.Data.Published()[string(victim.PointerBytes)]
+		md := victim.Metadata
+		md.DataBlocks = append([]bs.DataBlockMetadata(nil), md.DataBlocks...)
+		ro := md.BlockFilterRegionOffset
+		var region []byte
+		for j := len(md.DataBlocks) - 1; j >= 0; j-- {
+			b := &md.DataBlocks[j]
+			if b.BloomFilterSize == 0 {
+				continue
+			}
+			sec := orig[b.BloomFilterOffset : b.BloomFilterOffset+b.BloomFilterSize]
+			b.BloomFilterOffset = ro + len(region)
+			region = append(region, sec...)
+		}
+		if len(region) != md.BlockFilterRegionSize {
+			continue
+		}
+		var buf bytes.Buffer
+		buf.Write(orig[:ro])
+		buf.Write(region)
+		if err := bs.WriteFileFooter(&buf, &md); err != nil {
+			c.r.Note("reversed-sections: footer: %v", err)
+			continue
+		}
+		env.Data.Put(string(victim.PointerBytes), buf.Bytes())
+		env.Meta.Update(context.Background(), []bs.WriteOperation{{FileMetadata: &md, FilePointerBytes: victim.PointerBytes}}, nil)
+		blockOf := map[int]int{} // row id -> block offset
+		for _, b := range md.DataBlocks {
+			data, err := bs.ReadDataBlockRowData(bytes.NewReader(buf.Bytes()), &b)
+			if err != nil {
+				continue
+			}
+			for _, id := range idsInBytes(data) {
+				blockOf[id] = b.RowDataOffset
+			}
+		}
+		for k := 0; k <= 10; k++ {
+			eng := freshOver(env, "never")
+			env.Data.ClearFaults()
+			if k > 0 {
+				env.Data.SetFaults([]string{"read"}, k)
+			}
+			res, err := eng.Query(context.Background(), bs.NewQuery().Token("needle").Build())
+			if err != nil {
+				continue
+			}
+			rows, ok := drainWatch(res, 10*time.Second)
+			e := res.Err()
+			st := res.Stats()
+			res.Close()
+			env.Data.ClearFaults()
+			replay := map[string]any{"blocks": len(md.DataBlocks), "failing_read": k, "err": errStr(e), "rows": len(rows)}
+			c.r.Case(true, fmt.Sprint("reversed-sections", i, k))
+			c.r.Hit("directed.reversed-sections")
+			if !ok {
+				c.r.Add(Finding{Kind: "violation", Check: "next-never-false", Detail: "Next did not return false within 10s", Replay: replay})
+				continue
+			}
+			listed := map[int]int{}
+			for _, b := range st.BlockStats {
+				listed[b.BlockOffset]++
+			}
+			if len(listed) != 0 && len(listed) != len(md.DataBlocks) {
+				c.r.Add(Finding{Kind: "violation", Check: "file-partially-listed", Detail: fmt.Sprintf("BlockStats lists %d of the file's %d blocks (store read #%d failed; Err=%s)", len(listed), len(md.DataBlocks), k, errStr(e)), Replay: replay})
+			}
+			for _, row := range rows {
+				if id := rowID(row); listed[blockOf[id]] == 0 {
+					c.r.Add(Finding{Kind: "violation", Check: "returned-row-block-unlisted", Detail: fmt.Sprintf("row %d was returned but its block @%d is not in BlockStats", id, blockOf[id]), Replay: replay})
+					break
+				}
+			}
+			if k == 0 && (e != nil || len(rows) != 8) {
+				c.r.Add(Finding{Kind: "disagreement", Check: "reversed-sections-baseline", Detail: fmt.Sprintf("fault-free query over the re-laid-out file returned %d rows, err %v", len(rows), e), Replay: replay})
+			}
 		}
 	}
 }
